@@ -481,7 +481,7 @@ def run(ctx):
                         add("small%d-perm" % n, list(perm))
     four = list(small_graphs(4, "same")) + list(small_graphs(4, "distinct"))
     if quick:
-        four = rng.sample(four, 6000)
+        four = rng.sample(four, 20000)
     for nodes in four:
         add("small4", nodes)
     if not quick:
@@ -507,14 +507,14 @@ def run(ctx):
         add("dup-unknown", nodes)
         add("dup-unknown", list(reversed(nodes)))
     # --- random graphs -----------------------------------------------------------------------------
-    for i in range(400 if quick else 6000):
+    for i in range(1500 if quick else 6000):
         add("random", random_graph(rng, 40 if i % 4 else 12), grouping=rng.choice(["single", "bypkg"]))
 
     reqs, fam_of = [], []
     for fam, gs in families.items():
         reqs += gs
         fam_of += [fam] * len(gs)
-    cov["rule"] = ("all graphs of 1..3 nodes (quick: plus 6000 sampled of the 320000 with 4 nodes; thorough: all) — every node a target or an "
+    cov["rule"] = ("all graphs of 1..3 nodes (quick: plus 20000 sampled of the 320000 with 4 nodes; thorough: all) — every node a target or an "
                    "alias, every dependency set incl. self-reference, two output regimes (all targets write one file / distinct files), all "
                    "orderings of the node list for <= 3 nodes; a grid of %d output spellings x %d package nestings x {unordered, dependency, "
                    "dependency through an alias} and single targets with two outputs; %d input spellings; workspace roots; test/testonly "
@@ -611,7 +611,7 @@ def run(ctx):
 
     # --- FindCycle: exact cycle vs model, and every reported cycle checked edge by edge ---------------------------
     creqs = []
-    for _ in range(1500 if quick else 20000):
+    for _ in range(4000 if quick else 20000):
         n = rng.randint(1, 9)
         labs = [L(rng.choice(["", "p"]), "v%d" % i) for i in range(n)]
         rng.shuffle(labs)
@@ -686,7 +686,7 @@ def run(ctx):
         return
     cov["pathfn_cases"] = len(freqs)
     areqs = []
-    for _ in range(600 if quick else 8000):
+    for _ in range(2000 if quick else 8000):
         n = rng.randint(1, 9)
         labs = [L(rng.choice(["", "p"]), "v%d" % i) for i in range(n)]
         cyclic = rng.random() < 0.15
@@ -746,13 +746,15 @@ def vlib_canon(x):
 # CLI-level tie
 # ------------------------------------------------------------------------------------------------
 
-def write_workspace(root, nodes, trace):
-    """materialise a graph as BUILD.json files; every command appends its label to the trace file"""
+def write_workspace(root, nodes, trace, files=None):
+    """materialise a graph as BUILD.json files (or the file named in `files`, parallel to `nodes`; BUILD.yaml takes
+    the same JSON text); every command appends its label to the trace file; declared plain inputs are created"""
     os.makedirs(root, exist_ok=True)
     open(os.path.join(root, "grog.toml"), "w").write("")
     by = {}
-    for k, n in nodes:
-        by.setdefault(n["pkg"], {"targets": [], "aliases": []})
+    for idx, (k, n) in enumerate(nodes):
+        key = (n["pkg"], files[idx] if files else "BUILD.json")
+        by.setdefault(key, {"targets": [], "aliases": []})
         lab = lambda d: "//%s:%s" % (d["pkg"], d["name"])
         if k == "t":
             outs = [(o["id"] if o["k"] == "file" else o["k"] + "::" + o["id"]) for o in n["outs"]]
@@ -764,15 +766,22 @@ def write_workspace(root, nodes, trace):
                     cmds.append("mkdir -p '%s' && echo data > '%s/f'" % (o["id"], o["id"]))
             t = {"name": n["name"], "command": " && ".join(cmds), "dependencies": [lab(d) for d in n["deps"]],
                  "inputs": n["inputs"], "outputs": outs}
+            if n["bin"]:
+                t["bin_output"] = n["bin"]
             if n["testonly"]:
                 t["tags"] = ["testonly"]
-            by[n["pkg"]]["targets"].append(t)
+            by[key]["targets"].append(t)
+            for i in n["inputs"]:
+                ip = os.path.normpath(os.path.join(root, n["pkg"], i))
+                if i and not i.startswith("/") and ip.startswith(root + os.sep) and not os.path.exists(ip):
+                    os.makedirs(os.path.dirname(ip), exist_ok=True)
+                    open(ip, "w").write("input\n")
         else:
-            by[n["pkg"]]["aliases"].append({"name": n["name"], "actual": lab(n["actual"])})
-    for pkg, body in by.items():
+            by[key]["aliases"].append({"name": n["name"], "actual": lab(n["actual"])})
+    for (pkg, fname), body in by.items():
         d = os.path.join(root, pkg)
         os.makedirs(d, exist_ok=True)
-        json.dump(body, open(os.path.join(d, "BUILD.json"), "w"), indent=1)
+        json.dump(body, open(os.path.join(d, fname), "w"), indent=1)
 
 
 CLI_CASES = [
@@ -791,6 +800,13 @@ CLI_CASES = [
     ("dir-output-escape", [("t", T("p", "a", [], ["dir::../../escaped_dir"]))], False),
     ("test-dep", [("t", T("", "lib", [L("", "x_test")], ["o"])), ("t", T("", "x_test"))], False),
     ("testonly-dep-via-alias", [("t", T("", "lib", [L("", "al")], ["o"])), ("a", A("", "al", L("", "helper"))), ("t", T("", "helper", testonly=True))], False),
+    # one package defined by two build files (merged by the loader)
+    ("two-files-valid", [("t", T("p", "a", [], ["a.out"])), ("t", T("p", "b", [L("p", "a")], ["b.out"]))], True, ["BUILD.json", "BUILD.yaml"]),
+    ("dup-target-two-files", [("t", T("p", "x", [], ["o1"])), ("t", T("p", "x", [], ["o2"]))], False, ["BUILD.json", "BUILD.yaml"]),
+    ("dup-target-alias-two-files", [("t", T("p", "x", [], ["o1"])), ("a", A("p", "x", L("p", "y"))), ("t", T("p", "y"))], False,
+     ["BUILD.json", "BUILD.yaml", "BUILD.yaml"]),
+    ("dup-alias-two-files", [("a", A("p", "x", L("p", "y"))), ("a", A("p", "x", L("p", "y"))), ("t", T("p", "y"))], False,
+     ["BUILD.json", "BUILD.yaml", "BUILD.yaml"]),
 ]
 
 
@@ -803,13 +819,28 @@ def cli_smoke(ctx, quick):
     base = ctx.scratch("cli")
     env = dict(os.environ, HOME=os.path.join(base, "home"), GROG_ROOT=os.path.join(base, "home", ".grog"), NO_COLOR="1")
     os.makedirs(env["HOME"], exist_ok=True)
-    for name, nodes, valid in CLI_CASES:
-        ref = reference_defects(graph(nodes))
-        assert (not ref) == valid, (name, ref)
-        for cmd in ("check", "build"):
+    cases = [(c[0], c[1], c[2], c[3] if len(c) > 3 else None, ("check", "build")) for c in CLI_CASES]
+    # generated workspaces: sampled from the in-process families (no docker outputs, no empty path strings); the
+    # verdict of `grog check` must be the reference validator's; `grog build` is run on the invalid ones only
+    # (it must fail and run nothing) — commands of arbitrary valid graphs are not guaranteed to succeed
+    pool = [n for n in spelling_graphs()] + [n for n in input_graphs()] + [n for n in test_dep_graphs()] + \
+           [random_graph(ctx.rng, 10) for _ in range(200)] + list(small_graphs(3, "same"))
+    pool = [n for n in pool if n and all(
+        (k == "a") or (all(o["k"] != "docker" and o["id"] not in ("", "/") and "//" not in o["id"] for o in m["outs"]) and all(i not in ("",) for i in m["inputs"]) and m["cmd"])
+        for k, m in n)]
+    for i, nodes in enumerate(ctx.rng.sample(pool, 30 if quick else 200)):
+        cases.append(("gen%d" % i, nodes, None, None, None))
+    for name, nodes, valid, files, cmds in cases:
+        for cmd in cmds or ("check", "build"):
             ws = os.path.join(base, name + "-" + cmd)
+            ref = reference_defects(graph(nodes, ws=ws))       # the validator is told the real workspace root
+            if cmds is None:
+                valid = not ref
+                if valid and cmd == "build":
+                    continue
+            assert (not ref) == valid, (name, ref)
             trace = os.path.join(ws, "trace.log")
-            write_workspace(ws, nodes, trace)
+            write_workspace(ws, nodes, trace, files)
             try:
                 p = subprocess.run([grog, cmd] + (["//..."] if cmd == "build" else []), cwd=ws, env=env, capture_output=True, text=True, timeout=120)
                 rc, out = p.returncode, (p.stdout + p.stderr)[-1500:]
